@@ -14,11 +14,15 @@ type verifC17Ver struct{ m, a, b, c int32 }
 var verifC17Versions = []verifC17Ver{{2, 1, 10, 3}, {5, 7, 20, 4}, {-3, 100, 30, 1}}
 
 func verifC17Src(v verifC17Ver) string {
+	extra := ""
+	if v.m == -3 { // the third version declares three more fields
+		extra = "\tw int\n\tx2 string\n\ty2 bool\n"
+	}
 	return fmt.Sprintf(`package main
 
 type T struct {
 	v int
-}
+%s}
 
 var counter int
 
@@ -126,17 +130,28 @@ func RecallVal() int {
 	}
 	return tab["k"]*3 + curT.v + shape.Area() + items[len(items)-1]
 }
-`, v.b, v.c, v.m, v.a)
+`, extra, v.b, v.c, v.m, v.a)
 }
 
 func verifC17() {
 	steps := verifCfg("c17_steps", 4)
 	vm := New(WithStdout(&verifRecorder{}))
+	wide := false // the version with the extra fields has been loaded at least once (fields are never removed)
 	load := func(k int) bool {
 		err := vm.Load(verifMkFS(map[string]string{"main/main.go": verifC17Src(verifC17Versions[k])}), "main")
 		verifAssert(err == nil, "C17/load-succeeds")
+		if k == 2 {
+			wide = true
+		}
 		return err == nil
 	}
+	render := func(v int32, w bool) string {
+		if w {
+			return "&{v:" + Int32(v).String() + " w:0 x2: y2:false}"
+		}
+		return "&{v:" + Int32(v).String() + "}"
+	}
+	instWide := false
 	cur := verifChoice("v0", len(verifC17Versions))
 	if !load(cur) {
 		return
@@ -190,7 +205,7 @@ func verifC17() {
 		case 4:
 			rets, err := vm.Call("main.NewT", 1, Int32(a))
 			if err == nil && len(rets) == 1 {
-				inst, haveInst, instV = rets[0], true, a
+				inst, haveInst, instV, instWide = rets[0], true, a, wide
 			}
 		case 5:
 			if haveInst {
@@ -223,6 +238,20 @@ func verifC17() {
 		}
 	}
 	recall("C17/final/uninitialised-variables-of-every-type-keep-their-values")
+	// an instance created after the history renders with its fields, in declaration order, like one created before it
+	{
+		x := verifInt32("final_new")
+		rets, err := vm.Call("main.NewT", 1, Int32(x))
+		verifAssert(err == nil && len(rets) == 1, "C17/final/new-instance")
+		if err == nil && len(rets) == 1 {
+			verifAssert(rets[0].String() == render(x, wide), "C17/final/new-instance-renders-its-fields-in-declaration-order")
+			out, err := vm.Call("main.CallVal", 1, rets[0], Int32(1))
+			call1(out, err, x*verifC17Versions[cur].c+1, "C17/final/method-on-new-instance")
+		}
+		if haveInst {
+			verifAssert(inst.String() == render(instV, instWide), "C17/final/old-instance-renders-its-fields")
+		}
+	}
 	// whatever was captured during the history must run the code of the version loaded last
 	if haveFv {
 		v := verifC17Versions[cur]
